@@ -3,7 +3,7 @@ import os
 import sys
 
 sys.path.insert(0, os.path.dirname(os.path.dirname(os.path.abspath(__file__))))
-sys.path.insert(0, "/repo")
+sys.path.insert(0, os.environ.get("RSIM_REPO", "/repo"))
 
 if __name__ == "__main__":
     from rsim import check
